@@ -86,6 +86,13 @@ Proof. vm_compute. reflexivity. Qed.
                      order, scalars are equal);
    [nodup_keys v]  : no object inside v has two entries with the same key (always true after json.load / for a Python dict);
    [env_nodup e]   : the same for the parameter values and the mappings of the environment;
+   [maps_bk_unique maps] : no level of a mapping (its top-level keys; the second-level keys under each of them) holds two
+                     spellings of the same boolean ("True" and "TRUE").  NEW with the repair of F31: Fn::FindInMap now finds a
+                     key spelled like a boolean, by the exact key first and else by the FIRST spelling in dictionary order
+                     (the library's `_mapping_get`), so with two spellings present the order decides; the theorems below that
+                     reach Fn::FindInMap were restated with this one hypothesis more (their old statements are false of the
+                     repaired resolver: example [C07_ex_boolean_spellings_excluded]).  Nothing is asked of parameter values,
+                     of the expression or of the mapping leaves;
    [rel_res R x y] : both [Ok] with R-related results, or both [Err].  The error KIND is not compared, and cannot be: when two
                      entries of one object both fail, the exception raised is the one of the entry met first
                      (example [C07_ex_error_kind_depends_on_order] below).
@@ -111,28 +118,32 @@ Print Assumptions C07_vperm_keeps_nodup.
 
 (* THE THEOREM (one environment): reordering the keys of any objects of an expression, at any depth -- including the
    variable map of a Fn::Sub -- changes neither whether resolution succeeds nor, up to key order, its result *)
-Theorem C07_object_keys_perm : forall e v w, env_nodup e -> vperm v w -> nodup_keys v ->
+Theorem C07_object_keys_perm : forall e v w, env_nodup e -> maps_bk_unique (mappings e) -> vperm v w -> nodup_keys v ->
   rel_res vperm (resolve e v) (resolve e w).
 Proof. exact resolve_vperm. Qed.
 Print Assumptions C07_object_keys_perm.
 
 (* ... and the keys inside parameter values and inside Mappings may be reordered at the same time *)
-Theorem C07_object_keys_perm_env : forall e e' v w, eperm e e' -> env_nodup e -> vperm v w -> nodup_keys v ->
+Theorem C07_object_keys_perm_env : forall e e' v w, eperm e e' -> env_nodup e -> maps_bk_unique (mappings e) ->
+  vperm v w -> nodup_keys v ->
   rel_res vperm (resolve e v) (resolve e' w).
 Proof. exact resolve_vperm_env. Qed.
 Print Assumptions C07_object_keys_perm_env.
 
 (* the same, read off: success is preserved with a [vperm]-related result; failure is preserved; a result that contains no
    object (a string, a list of strings, ...) is preserved exactly *)
-Theorem C07_object_keys_perm_ok : forall e e' v w r, eperm e e' -> env_nodup e -> vperm v w -> nodup_keys v ->
+Theorem C07_object_keys_perm_ok : forall e e' v w r, eperm e e' -> env_nodup e -> maps_bk_unique (mappings e) ->
+  vperm v w -> nodup_keys v ->
   resolve e v = Ok r -> exists r', resolve e' w = Ok r' /\ vperm r r'.
 Proof. exact resolve_vperm_ok. Qed.
 Print Assumptions C07_object_keys_perm_ok.
-Theorem C07_object_keys_perm_same_success : forall e e' v w, eperm e e' -> env_nodup e -> vperm v w -> nodup_keys v ->
+Theorem C07_object_keys_perm_same_success : forall e e' v w, eperm e e' -> env_nodup e -> maps_bk_unique (mappings e) ->
+  vperm v w -> nodup_keys v ->
   is_ok (resolve e v) = is_ok (resolve e' w).
 Proof. exact resolve_vperm_is_ok. Qed.
 Print Assumptions C07_object_keys_perm_same_success.
-Theorem C07_object_keys_perm_flat_result : forall e e' v w r, eperm e e' -> env_nodup e -> vperm v w -> nodup_keys v ->
+Theorem C07_object_keys_perm_flat_result : forall e e' v w r, eperm e e' -> env_nodup e -> maps_bk_unique (mappings e) ->
+  vperm v w -> nodup_keys v ->
   resolve e v = Ok r -> no_dict r = true -> resolve e' w = Ok r.
 Proof. exact resolve_vperm_no_dict. Qed.
 Print Assumptions C07_object_keys_perm_flat_result.
@@ -161,12 +172,13 @@ Theorem C07_resource_keys_perm_gate : forall resolved r w, vperm r w -> nodup_ke
 Proof. exact gate_vperm. Qed.
 Print Assumptions C07_resource_keys_perm_gate.
 (* ... and the resolved resource (resolution + literal Type put back) is the same up to key order *)
-Theorem C07_resource_keys_perm : forall e e' r w, eperm e e' -> env_nodup e -> vperm r w -> nodup_keys r ->
+Theorem C07_resource_keys_perm : forall e e' r w, eperm e e' -> env_nodup e -> maps_bk_unique (mappings e) ->
+  vperm r w -> nodup_keys r ->
   rel_res vperm (resolve_resource e r) (resolve_resource e' w).
 Proof. exact resolve_resource_vperm. Qed.
 Print Assumptions C07_resource_keys_perm.
 (* the Resources section as one object: resources reordered AND keys permuted inside them *)
-Theorem C07_resources_keys_perm : forall e e' resolved rs rs', eperm e e' -> env_nodup e ->
+Theorem C07_resources_keys_perm : forall e e' resolved rs rs', eperm e e' -> env_nodup e -> maps_bk_unique (mappings e) ->
   vperm (VDict rs) (VDict rs') -> Forall (fun kv => nodup_keys (snd kv)) rs ->
   rel_res (fun a b => vperm (VDict a) (VDict b)) (resolve_resources e resolved rs) (resolve_resources e' resolved rs').
 Proof. exact resolve_resources_vperm. Qed.
@@ -175,6 +187,7 @@ Print Assumptions C07_resources_keys_perm.
 Theorem C07_condition_keys_perm : forall ps ps' maps maps' decl decl' n,
   lookups_perm ps ps' -> lookups_perm maps maps' -> vperm (VDict decl) (VDict decl') ->
   (forall k x, lookup k ps = Some x -> nodup_keys x) -> (forall k x, lookup k maps = Some x -> nodup_keys x) ->
+  maps_bk_unique maps ->
   nodup_keys (VDict decl) ->
   rel_res eq (cond_root ps maps decl n) (cond_root ps' maps' decl' n).
 Proof. exact cond_root_vperm. Qed.
@@ -183,7 +196,7 @@ Print Assumptions C07_condition_keys_perm.
    section (sections reordered, keys permuted at any depth inside them) *)
 Theorem C07_model_keys_perm : forall pseudo decls extra maps maps' cdecl cdecl' rs rs',
   (forall ps, bind_params pseudo decls extra = Ok ps -> forall k x, lookup k ps = Some x -> nodup_keys x) ->
-  lookups_perm maps maps' -> (forall k x, lookup k maps = Some x -> nodup_keys x) ->
+  lookups_perm maps maps' -> (forall k x, lookup k maps = Some x -> nodup_keys x) -> maps_bk_unique maps ->
   vperm (VDict cdecl) (VDict cdecl') -> nodup_keys (VDict cdecl) ->
   vperm (VDict rs) (VDict rs') -> Forall (fun kv => nodup_keys (snd kv)) rs ->
   rel_res vperm (resolve_model pseudo decls extra maps cdecl rs) (resolve_model pseudo decls extra maps' cdecl' rs').
@@ -210,6 +223,41 @@ Example C07_ex_keys_resolved :
   resolve e1 ex_b = Ok (VDict [(s_Tags, VDict [([108], VList [VDict [([113], VStr [50]); ([112], VStr [49])]]); ([107], VStr [118])]);
                                (s_Name, VStr [120;45;101;117])]).
 Proof. vm_compute. split; reflexivity. Qed.
+(* the hypothesis [maps_bk_unique] holds of mappings without two spellings of one boolean -- one spelling ("True") is fine *)
+Definition s_True : str := [84;114;117;101].
+Definition s_TRUE : str := [84;82;85;69].
+(* Mappings {"M": {"True": {"k": "yes"}, "a": {"false": "0", "b": "1"}}} *)
+Definition e_bk : env :=
+  {| params := [(REGION, VStr [101;117])];
+     mappings := [([77], VDict [(s_True, VDict [([107], VStr [121;101;115])]);
+                                ([97], VDict [(S_false, VStr [48]); ([98], VStr [49])])])];
+     conds := fun _ => Ok false |}.
+Example C07_ex_maps_bk_unique : maps_bk_unique (mappings e1) /\ maps_bk_unique (mappings e_bk) /\ env_nodup e_bk /\
+  resolve e_bk (VDict [(K_FindInMap, VList [VStr [77]; VStr s_TRUE; VStr [107]])]) = Ok (VStr [121;101;115]).
+Proof.
+  split; [apply maps_bk_unique_forallb; vm_compute; reflexivity|]. split; [apply maps_bk_unique_forallb; vm_compute; reflexivity|].
+  split; [|vm_compute; reflexivity]. split; intros k x H; simpl in H.
+  - destruct (str_eqb k REGION); inv H. reflexivity.
+  - destruct (str_eqb k [77]); inv H. vm_compute. reflexivity.
+Qed.
+(* why two spellings of one boolean in one mapping level are excluded (since the repair of F31): Fn::FindInMap with the key "True"
+   (which reaches the lookup as "true") takes the FIRST spelling in dictionary order, in the library as in the model --
+   Mappings {"M": {"TRUE": {"k": "no"}, "True": {"k": "yes"}}} gives "no", the same mapping written True-first gives "yes".
+   All the other hypotheses of [C07_object_keys_perm_env] hold on this pair. *)
+Definition ex_two_spellings (swap : bool) : env :=
+  let a := (s_TRUE, VDict [([107], VStr [110;111])]) in let b := (s_True, VDict [([107], VStr [121;101;115])]) in
+  {| params := []; mappings := [([77], VDict (if swap then [b; a] else [a; b]))]; conds := fun _ => Ok false |}.
+Example C07_ex_boolean_spellings_excluded :
+  let v := VDict [(K_FindInMap, VList [VStr [77]; VStr s_True; VStr [107]])] in
+  eperm (ex_two_spellings false) (ex_two_spellings true) /\ env_nodup (ex_two_spellings false) /\ vperm v v /\ nodup_keys v /\
+  resolve (ex_two_spellings false) v = Ok (VStr [110;111]) /\ resolve (ex_two_spellings true) v = Ok (VStr [121;101;115]) /\
+  forallb (fun kv => map_bk_uniqueb (snd kv)) (mappings (ex_two_spellings false)) = false.
+Proof.
+  cbv zeta. split; [|split; [|split; [apply vperm_refl | repeat split; vm_compute; reflexivity]]].
+  - split; [apply lookups_perm_refl|]. split; [|intros n; reflexivity].
+    intros k. simpl. destruct (str_eqb k [77]); [|exact I]. apply vpermb_sound. vm_compute. reflexivity.
+  - split; intros k x H; simpl in H; [discriminate|]. destruct (str_eqb k [77]); inv H. vm_compute. reflexivity.
+Qed.
 (* why error kinds are not compared: {"a": {"Fn::Join": []}, "b": {"Ref": []}} raises ValueError, b-first raises TypeError *)
 Example C07_ex_error_kind_depends_on_order :
   resolve e1 (VDict [([97], VDict [(K_Join, VList [])]); ([98], VDict [(K_Ref, VList [])])]) = Err EValue /\
